@@ -450,3 +450,5 @@ def run(ctx, prog):
     ctx.floor('kernels receiving lookup output', n_k, 5)
     ctx.floor('template row selections', n_t, 2)
     ctx.floor('enumerate(self.partitions) loops', n3, 1)
+    from .. import kernelvalues as _kv
+    ctx.floor('kernel value cases interpreted', _kv.clause(ctx, prog, 'C12-D7', ('partitioned', 'template')), 20)
